@@ -483,8 +483,8 @@ def run(repo, res, tier):
     cycseed(repo, res)
     from . import c11
     from vlib import rules_skips as SK, tables
-    n = SK.skips_rule(repo, res, tables.load("skips")["row"])
-    res.floor("SKIPS", n, 55)
+    n = SK.skips_rule(repo, res, tables.load("skips")["row"], exclude=set(SK.CORES))  # the validators; the algorithmic cores belong to C02 / C03
+    res.floor("SKIPS", n, 60)
     c11.dom_get_specializations(repo, res)  # unknown-shell / non-command / duplicate checks precede the target-shell filter
     common.run_traversals(repo, res, only={"check::do_check_subword_spaces", "check::do_get_nonterm_refs", "check::expr_get_head", "check::expr_get_tail"}, rp=False)
     res.floor("GUARD", res.count("GUARD"), 12)
